@@ -167,7 +167,7 @@ EXT5={
  "C13":" One named type as the body of several Path directives (24 orders x 81 declaration patterns).",
  "C15":" Lines starting with digits that are no response code.",
  "C18":" Every kind's keyword as a parameter value, annotation or body string (bare and quoted) with that kind banned.",
- "C20":" Fresh heirs of every object type of the pool.",
+ "C20":" Fresh heirs of every object type of the pool; every selection also with its declarations in the reverse order (use before declaration) as the base document. One open finding (the allOf ancestor in usedUserTypes, the C10 finding seen from here) matched by what changes.",
 }
 for k,v in EXT.items():
     CHECKS[k]["text"]+=v
